@@ -10,7 +10,8 @@ import (
 // The end-to-end half of C15: attribution of rows to the table announced for
 // their table id, decoding with the latest table map, mapper calls (engine E2).
 func init() {
-	ExtraHalves = append(ExtraHalves, e2.RunTwoStreamsFirst, e2.RunAttribution, e2.RunOrdinalAttribution, e2.RunRestart, e2.RunSchemaChange, e2.RunTableIDs, e2.RunCountChange, e2.RunCaseTwins, func(r *chk.Run) { e2.RunScale(r, "table-ids", "wide-table") }, e2.RunPartialImages)
+	ExtraHalves = append(ExtraHalves, e2.RunTwoStreamsFirst, e2.RunAttribution, e2.RunOrdinalAttribution, e2.RunRestart, e2.RunSchemaChange, e2.RunTableIDs, e2.RunCountChange, e2.RunCaseTwins, func(r *chk.Run) { e2.RunScale(r, "table-ids", "wide-table") }, e2.RunPartialImages, e2.RunQueryEnvelope, e2.RunRename)
+	ExtraReplays["rename"] = e2.ReplayRename
 	ExtraReplays["partial"] = e2.ReplayPartial
 	ExtraReplays["nest"] = e2.ReplayNest
 	ExtraReplays["scale"] = e2.ReplayScale
